@@ -36,12 +36,19 @@ theorem gen_session_fields_never_written :
 
 /-! ## O1 — exactly one response per request -/
 
-/-- For every server, every environment (shutdown racing at any point, transport gone, engine refusing the command) and
-    every request bytes: one call issues `[]`, `[close]`, `[send w]` or `[send w, close]` — never two Sends, a Close only
-    after the Send. -/
+/-- For every server (routes, handlers, seams that return or throw anything), every environment (shutdown racing at any
+    point, transport gone, engine refusing the command) and every request bytes: the transport calls one
+    `processHttpRequest` makes — `processCalls` lists them arm by arm, following the function's control flow — are `[]`,
+    `[sendAsync w]` or `[sendAsync w, close]`: never two Sends, a Close only directly after the Send.  The engine commands
+    are those calls minus a refused `sendAsync`, hence at most one Send command.  (Proved by case analysis of the control
+    flow, `processCalls_shape`; not a property of the result type.) -/
 theorem O1_at_most_one_send (srv : Server) (env : Env) (data : Bytes) :
-    WellShaped (process srv env data).cmds ∧ countSends (process srv env data).cmds ≤ 1 :=
-  ⟨outcome_wellShaped _, wellShaped_countSends (outcome_wellShaped _)⟩
+    CallsShaped (processCalls srv env data).1 ∧
+    (process srv env data).cmds = engineCmds env (processCalls srv env data).1 ∧
+    countSends (process srv env data).cmds ≤ 1 := by
+  refine ⟨processCalls_shape srv env data, process_cmds srv env data, ?_⟩
+  rw [process_cmds]
+  exact engineCmds_count env _ (processCalls_shape srv env data)
 
 /-- Server up (not shutting down, transport present, engine accepts): every extracted request — parseable or not, routed
     or not, handler throwing or not — is answered by exactly one Send command; the only other outcome is an explicit
@@ -52,11 +59,11 @@ theorem O1_exactly_one_response (srv : Server) (env : Env) (data : Bytes)
     (process srv env data = .suppressed ∧
       ∃ p h, fromWireFormat data = .ok p ∧ (decisionOf srv p).userHandler? = some h ∧
         (((h (reqOf srv p) prefilled).threw = false ∧ (h (reqOf srv p) prefilled).res.suppress = true) ∨
-         srv.suppressHook (reqOf srv p) (dispatched srv p).1 = true)) := by
+         srv.suppressHook (reqOf srv p) (dispatched srv p).1 = .ret true)) := by
   rcases process_up_cases srv env data h1 h2 h3 with ⟨w, c, h⟩ | ⟨h, p, hp, _, hs⟩
   · left; refine ⟨w, c, h, ?_⟩; rw [h]; cases c <;> simp [Outcome.cmds, countSends]
   · right
-    obtain ⟨hd, hh, hx⟩ := suppressedBy_explicit srv p hs
+    obtain ⟨hd, hh, hx⟩ := suppressSeam_explicit srv p hs
     exact ⟨h, p, hd, hp, hh, hx⟩
 
 example : process { defaultHandler := some (fun _ r => { res := { r with suppress := true } }) } Env.up
@@ -86,15 +93,17 @@ theorem O1_overflow (P : Params) (p : Pool) (sid : Nat) (data : Bytes) (h : queu
 
 /-- For EVERY schedule (any number of workers, any queue capacity, any interleaving of arrivals, picks and emits, handlers
     of any duration): the commands already in the engine queue together with the commands still owed by unfinished
-    requests are a permutation of what the arrived requests were entitled to — nothing is lost, nothing is issued twice —
-    and the entitlement is one ticket per arrival, in arrival order: what `processHttpRequest` issues for that request, or
-    the overflow 503. -/
+    requests are a permutation of what the arrived requests were entitled to — nothing is lost, nothing is issued twice.
+    The entitlement is exactly one ticket per arrival, in arrival order (`ticketsOf` replays the schedule): the overflow
+    503-and-close precisely for the arrivals that found the task queue at capacity, what `processHttpRequest` issues for
+    that request for all others. -/
 theorem O1_all_schedules (P : Params) (steps : List Step) :
     ((runPool P {} steps).log ++ pending (runPool P {} steps).tasks).Perm (runPool P {} steps).ledger ∧
-    ∃ ts, Tickets P (arrivals steps) ts ∧ (runPool P {} steps).ledger = flattenTickets ts := by
-  refine ⟨runPool_perm P {} steps (by simp [pending]), ?_⟩
-  obtain ⟨ts, h1, h2⟩ := runPool_ledger P {} steps
-  exact ⟨ts, h1, by simpa using h2⟩
+    (runPool P {} steps).ledger = flattenTickets (ticketsOf P {} steps) ∧
+    Tickets P (arrivals steps) (ticketsOf P {} steps) ∧
+    (NoOverflow P {} steps → ticketsOf P {} steps = (arrivals steps).map (fun a => (a.1, P.respond a.1 a.2))) := by
+  refine ⟨runPool_perm P {} steps (by simp [pending]), ?_, ticketsOf_tickets P {} steps, ticketsOf_noOverflow P {} steps⟩
+  simpa using runPool_ledger_eq P {} steps
 
 /-- Once every worker is idle, the responses the engine received for a session are a permutation of the responses its
     requests were entitled to: one per request. -/
@@ -105,6 +114,22 @@ theorem O1_quiescent (P : Params) (steps : List Step) (hq : (runPool P {} steps)
   simp only [pending, List.flatMap_nil, List.append_nil] at this
   exact ((this.filter _).map _).filterMap _
 
+/-- A subclass seam (`onUpgradeRequest`, `onResponseSuppressed`) that throws — a `std::exception` or ANYTHING else — yields,
+    with the server up, exactly one `500 Internal Server Error` with `Connection: close`, followed by a Close: the arm that
+    ends the function's `try` is `catch (...)` (FC16b repaired; on the unrepaired tree `Gen.errCatchesAll` is false and the
+    lemmas behind this theorem do not build). -/
+theorem O1_seam_throw_500 (srv : Server) (env : Env) (data : Bytes) (p : ParsedReq) (std : Bool)
+    (h1 : env.shutdownAtEntry = false) (h2 : env.upAtSend = true) (h3 : env.enqueueOk = true) (h4 : env.upAtClose = true)
+    (hp : fromWireFormat data = .ok p)
+    (ht : upgradeSeam srv p = .threw std ∨ (upgradeSeam srv p = .ret none ∧ suppressSeam srv p = .threw std)) :
+    process srv env data = .respond (errorWire 500) true := by
+  rcases ht with ht | ⟨hu, hs⟩
+  · rw [process_upgrade_threw srv env data p std h1 hp ht, errorOutcome_up env _ h2 h3, h4]
+  · rw [process_suppress_threw srv env data p std h1 hp hu hs, errorOutcome_up env _ h2 h3, h4]
+
+example : process { upgradeHook := fun _ => .threw false } Env.up
+    (ascii "GET / HTTP/1.1\r\nHost: x\r\nUpgrade: websocket\r\n\r\n") = .respond (errorWire 500) true := by decide +kernel
+
 /-! ## O2 — responses never interleave -/
 
 /-- For every schedule, every Send command in the engine queue carries exactly the payload of a Send that one arrived
@@ -113,7 +138,8 @@ theorem O1_quiescent (P : Params) (steps : List Step) (hq : (runPool P {} steps)
 theorem O2_whole_responses (P : Params) (steps : List Step) (sid : Nat) (w : Bytes)
     (h : (sid, Cmd.send w) ∈ (runPool P {} steps).log) :
     ∃ ts, Tickets P (arrivals steps) ts ∧ ∃ t ∈ ts, t.1 = sid ∧ Cmd.send w ∈ t.2 := by
-  obtain ⟨hperm, ts, ht, hl⟩ := O1_all_schedules P steps
+  obtain ⟨hperm, hl, ht, _⟩ := O1_all_schedules P steps
+  generalize ticketsOf P {} steps = ts at hl ht
   have hm : (sid, Cmd.send w) ∈ (runPool P {} steps).ledger := hperm.subset (by simp [h])
   rw [hl] at hm
   simp only [flattenTickets, List.mem_flatMap, tag, List.mem_map] at hm
@@ -134,7 +160,7 @@ theorem O1_one_send_per_ticket (srv : Server) (envOf : Nat → Bytes → Env) (w
     intro t hm
     rcases List.mem_cons.1 hm with rfl | hm
     · rcases hd.2 with h | h
-      · rw [h]; exact (O1_at_most_one_send srv _ _).2
+      · rw [h]; exact (O1_at_most_one_send srv _ _).2.2
       · rw [h]; decide
     · exact ih t hm
 
@@ -190,7 +216,7 @@ theorem O3_partial_single_worker (P : Params) (hw : P.w = 1) (steps : List Step)
     is the number of body bytes that follow the header section. -/
 theorem O4_content_length (srv : Server) (env : Env) (data : Bytes) (p : ParsedReq)
     (h1 : env.shutdownAtEntry = false) (h2 : env.upAtSend = true) (h3 : env.enqueueOk = true)
-    (hp : fromWireFormat data = .ok p) (hu : upgradeOf srv p = none) (hs : suppressedBy srv p = false)
+    (hp : fromWireFormat data = .ok p) (hu : upgradeSeam srv p = .ret none) (hs : suppressSeam srv p = .ret false)
     (hc : ApiConsistent (dispatched srv p).1) (hm : p.method ≠ .HEAD) (hb : bodylessStatus (dispatched srv p).1.status = false) :
     ∃ H c, process srv env data =
         .respond (toWire (dispatched srv p).1.status (statusText (dispatched srv p).1.status) H (dispatched srv p).1.body) c ∧
@@ -198,7 +224,7 @@ theorem O4_content_length (srv : Server) (env : Env) (data : Bytes) (p : ParsedR
   have hm' : (reqOf srv p).method ≠ .HEAD := by rw [reqOf_method]; exact hm
   obtain ⟨H, hw, hcl⟩ := buildWire_content_length env (reqOf srv p) (dispatched srv p).1 hc hm' hb
   refine ⟨H, ((buildWire env (reqOf srv p) (dispatched srv p).1).2 && env.upAtClose), ?_, hcl⟩
-  rw [process_ok srv env data p h1 hp hu, hs, ← hw]
+  rw [process_ok_false srv env data p h1 hp hu hs, ← hw]
   exact sendBlock_up env _ _ h2 h3
 
 /-- Every handler written with the response API — `status =`, `set_content`, `set_header` (other than Content-Length), in
@@ -220,22 +246,23 @@ example : ApiScript [.setStatus 201, .setContent [1, 2, 3] (ascii "a/b"), .setHe
 /-- HEAD: a parsed HEAD request is answered without a single body byte, on every dispatch category (auto-HEAD of a GET
     route, 405, 404, default handler) and whatever the handler put into the response object; a 204/304 also loses its
     Content-Length, any other status keeps the Content-Length the handler left. -/
-theorem O4_head_no_body (srv : Server) (env : Env) (data : Bytes) (p : ParsedReq)
+theorem O4_head_no_body (srv : Server) (env : Env) (data : Bytes) (p : ParsedReq) (b : Bool)
     (h1 : env.shutdownAtEntry = false) (h2 : env.upAtSend = true) (h3 : env.enqueueOk = true)
-    (hp : fromWireFormat data = .ok p) (hu : upgradeOf srv p = none) (hm : p.method = .HEAD) :
+    (hp : fromWireFormat data = .ok p) (hu : upgradeSeam srv p = .ret none) (hs : suppressSeam srv p = .ret b)
+    (hm : p.method = .HEAD) :
     process srv env data = .suppressed ∨
     ∃ H c, process srv env data =
         .respond (toWire (dispatched srv p).1.status (statusText (dispatched srv p).1.status) H []) c ∧
       (bodylessStatus (dispatched srv p).1.status = true → hFind H kCL = none) ∧
       (bodylessStatus (dispatched srv p).1.status = false → hFind H kCL = hFind (dispatched srv p).1.headers kCL) := by
-  cases hs : suppressedBy srv p with
-  | true => left; rw [process_ok srv env data p h1 hp hu, hs]; rfl
+  cases b with
+  | true => left; exact process_ok_true srv env data p h1 hp hu hs
   | false =>
     right
     have hm' : (reqOf srv p).method = .HEAD := by rw [reqOf_method]; exact hm
     obtain ⟨H, hw, hx, hy⟩ := buildWire_head env (reqOf srv p) (dispatched srv p).1 hm'
     refine ⟨H, ((buildWire env (reqOf srv p) (dispatched srv p).1).2 && env.upAtClose), ?_, hx, hy⟩
-    rw [process_ok srv env data p h1 hp hu, hs, ← hw]
+    rw [process_ok_false srv env data p h1 hp hu hs, ← hw]
     exact sendBlock_up env _ _ h2 h3
 
 /-- A HEAD request is never suppressed by a handler flag when it is served by a GET route (MATCHED_AS_HEAD ignores
@@ -263,7 +290,7 @@ theorem O4_parse_failure (srv : Server) (env : Env) (data : Bytes) (e : ParseErr
        (ascii "Content-Type", ascii "text/plain")] (statusText (errStatus e)) ∧
     (errStatus e = 500 ∨ errStatus e ∈ [400, 414, 501, 505]) := by
   refine ⟨?_, errorWire_eq _, ?_⟩
-  · rw [process_error srv env data e h1 hp]; simp [h2, h3, h4]
+  · rw [process_error srv env data e h1 hp, errorOutcome_up env _ h2 h3, h4]
   · cases e with
     | other => left; decide
     | request s => right; exact fromWireFormat_status data s hp
@@ -284,7 +311,7 @@ theorem O4_parse_statuses :
     unrepaired tree `Gen.connectionTokenised` is false and this does not build (F33). -/
 theorem O4_close_token (srv : Server) (env : Env) (data : Bytes) (p : ParsedReq) (v : Bytes)
     (h1 : env.shutdownAtEntry = false) (h2 : env.upAtSend = true) (h3 : env.enqueueOk = true) (h4 : env.upAtClose = true)
-    (hp : fromWireFormat data = .ok p) (hu : upgradeOf srv p = none) (hs : suppressedBy srv p = false)
+    (hp : fromWireFormat data = .ok p) (hu : upgradeSeam srv p = .ret none) (hs : suppressSeam srv p = .ret false)
     (hv : hFind p.headers (ascii "Connection") = some v) (ht : ascii "close" ∈ connTokens v) :
     ∃ H body, process srv env data =
         .respond (toWire (dispatched srv p).1.status (statusText (dispatched srv p).1.status) H body) true ∧
@@ -295,7 +322,7 @@ theorem O4_close_token (srv : Server) (env : Env) (data : Bytes) (p : ParsedReq)
   obtain ⟨H, hw, hc⟩ := buildWire_connection env (reqOf srv p) (dispatched srv p).1
   have h2' : (buildWire env (reqOf srv p) (dispatched srv p).1).2 = true := by rw [buildWire_eq]; exact hcd
   refine ⟨H, (headStrip (reqOf srv p).method (dispatched srv p).1).body, ?_, by simpa [h2'] using hc⟩
-  rw [process_ok srv env data p h1 hp hu, hs, ← hw, sendBlock_up env _ _ h2 h3, h2', h4]
+  rw [process_ok_false srv env data p h1 hp hu hs, ← hw, sendBlock_up env _ _ h2 h3, h2', h4]
   rfl
 
 example : ascii "close" ∈ connTokens (ascii "TE, close") ∧ ascii "close" ∈ connTokens (ascii "keep-alive ,\tCLOSE ") ∧
@@ -305,26 +332,26 @@ example : ascii "close" ∈ connTokens (ascii "TE, close") ∧ ascii "close" ∈
     command follows, `keep-alive` otherwise — for every request, session state and handler. -/
 theorem O4_close_header_iff (srv : Server) (env : Env) (data : Bytes) (p : ParsedReq)
     (h1 : env.shutdownAtEntry = false) (h2 : env.upAtSend = true) (h3 : env.enqueueOk = true) (h4 : env.upAtClose = true)
-    (hp : fromWireFormat data = .ok p) (hu : upgradeOf srv p = none) (hs : suppressedBy srv p = false) :
+    (hp : fromWireFormat data = .ok p) (hu : upgradeSeam srv p = .ret none) (hs : suppressSeam srv p = .ret false) :
     ∃ H body c, process srv env data =
         .respond (toWire (dispatched srv p).1.status (statusText (dispatched srv p).1.status) H body) c ∧
       hFind H (ascii "Connection") = some (if c then ascii "close" else ascii "keep-alive") := by
   obtain ⟨H, hw, hc⟩ := buildWire_connection env (reqOf srv p) (dispatched srv p).1
   refine ⟨H, (headStrip (reqOf srv p).method (dispatched srv p).1).body, (buildWire env (reqOf srv p) (dispatched srv p).1).2, ?_, hc⟩
-  rw [process_ok srv env data p h1 hp hu, hs, ← hw, sendBlock_up env _ _ h2 h3, h4]
+  rw [process_ok_false srv env data p h1 hp hu hs, ← hw, sendBlock_up env _ _ h2 h3, h4]
   simp
 
 /-- No Connection field on the request and the (only possible) default session: `Connection: keep-alive`, no Close. -/
 theorem O4_keepalive_default (srv : Server) (env : Env) (data : Bytes) (p : ParsedReq)
     (h1 : env.shutdownAtEntry = false) (h2 : env.upAtSend = true) (h3 : env.enqueueOk = true) (h5 : env.sess = some {})
-    (hp : fromWireFormat data = .ok p) (hu : upgradeOf srv p = none) (hs : suppressedBy srv p = false)
+    (hp : fromWireFormat data = .ok p) (hu : upgradeSeam srv p = .ret none) (hs : suppressSeam srv p = .ret false)
     (hv : hFind p.headers (ascii "Connection") = none) :
     ∃ w, process srv env data = .respond w false := by
   have hh : (reqOf srv p).headers = p.headers := reqOf_headers srv p
   have h2' : (buildWire env (reqOf srv p) (dispatched srv p).1).2 = false := by
     rw [buildWire_eq, hh, h5, connectionDecision_default p.headers hv]
   refine ⟨(buildWire env (reqOf srv p) (dispatched srv p).1).1, ?_⟩
-  rw [process_ok srv env data p h1 hp hu, hs, sendBlock_up env _ _ h2 h3, h2']
+  rw [process_ok_false srv env data p h1 hp hu hs, sendBlock_up env _ _ h2 h3, h2']
   rfl
 
 /-! ## O4′ — a response followed by a close is written completely (F31) -/
@@ -398,5 +425,48 @@ theorem O5_end_to_end (rs : List WireResp) (hs : ∀ r ∈ rs, r.Safe) (evs : Li
   have : (rs.map WireResp.wire).flatten = rs.flatMap WireResp.wire := by simp [List.flatMap]
   rw [this]
   exact O5_framer_recovers rs hs
+
+/-- The composed wire-level partial theorem: pool, engine and framer together.  For every schedule in which a request of a
+    session arrives only when no earlier one of that session is unfinished (`OneInFlight`) and the task queue is never
+    full, once the workers are idle: if the commands `processHttpRequest` issues for session `sid`'s requests, in request
+    order, are the Sends of wire-safe responses `rs` followed by at most one final Close, then for EVERY behaviour of the
+    kernel and the event loop that takes each Send whole (`FitsBuffer`) and processes exactly the session's commands of the
+    engine queue, the bytes the client reads split — by the reference framer — into exactly `rs`, in request order:
+    exactly one well-formed response per request, in order, nothing else on the wire. -/
+theorem O1_wire_partial (P : Params) (steps : List Step) (hone : OneInFlight P {} steps) (hno : NoOverflow P {} steps)
+    (hq : (runPool P {} steps).tasks = []) (sid : Nat)
+    (rs : List WireResp) (hs : ∀ r ∈ rs, r.Safe) (tail : List Cmd) (ht : tail = [] ∨ tail = [.close])
+    (hreq : ((arrivals steps).filter (fun a => a.1 == sid)).flatMap (fun a => P.respond a.1 a.2) =
+              (rs.map WireResp.wire).map Cmd.send ++ tail)
+    (evs : List EngEv) (hf : FitsBuffer evs) (hc : cmdsOf evs = proj sid (runPool P {} steps).log) :
+    frameAll (rs.map (·.isHead)) (runSock {} evs).delivered = some (rs.map WireResp.frame) := by
+  have h3 := O3_partial_one_in_flight P steps hone sid
+  rw [hq] at h3
+  simp only [pending, List.flatMap_nil, proj, List.filter_nil, List.map_nil, List.append_nil] at h3
+  have hl : proj sid (runPool P {} steps).log = (rs.map WireResp.wire).map Cmd.send ++ tail := by
+    show (List.filter _ _).map _ = _
+    rw [h3]
+    obtain ⟨_, hled, _, htk⟩ := O1_all_schedules P steps
+    rw [hled, htk hno]
+    have := proj_flattenTickets sid ((arrivals steps).map (fun a => (a.1, P.respond a.1 a.2)))
+    simp only [proj] at this
+    rw [this, ← hreq]
+    simp [List.filter_map, List.flatMap_map, Function.comp_def]
+  exact O5_end_to_end rs hs evs hf tail ht (hc.trans hl)
+
+/-- the hypotheses of `O1_wire_partial` are satisfiable: one request, one worker step sequence, a 200 with a 1-byte body -/
+example :
+    let r : WireResp := { status := 200, text := ascii "OK", fields := [(ascii "Content-Length", ascii "1")], body := [65], isHead := false }
+    let P : Params := { w := 2, qcap := 4, respond := fun _ _ => [.send r.wire] }
+    let steps : List Step := [.arrive 1 [], .pick, .emit 0]
+    r.Safe ∧ OneInFlight P {} steps ∧ NoOverflow P {} steps ∧ (runPool P {} steps).tasks = [] ∧
+    FitsBuffer [.cmd (.send r.wire) 1000] ∧ cmdsOf [EngEv.cmd (.send r.wire) 1000] = proj 1 (runPool P {} steps).log := by
+  refine ⟨⟨by decide, by decide, by decide, by unfold TokenFields; decide +kernel, by decide +kernel,
+    by rw [if_neg (by decide)]; exact ⟨ascii "1", by decide +kernel, by decide +kernel⟩⟩, ?_, ?_, ?_, ?_, ?_⟩
+  · simp [OneInFlight, stepPool, queuedCount, runningCount, markFirstQueued, emitAt]
+  · simp [NoOverflow, stepPool, queuedCount, runningCount, markFirstQueued, emitAt]
+  · decide +kernel
+  · simp [FitsBuffer, WireResp.wire, toWire]; decide +kernel
+  · decide +kernel
 
 end Iora.C16
